@@ -190,7 +190,8 @@ impl crate::platform::Arch for ElfRiscV64 {
     where
         Self: std::marker::Sized,
     {
-        let mut relocation = ElfRiscV64::relocation_from_raw(relocation_kind).unwrap();
+        // Unsupported relocation types are reported by our caller.
+        let mut relocation = ElfRiscV64::relocation_from_raw(relocation_kind).ok()?;
         let interposable = flags.is_interposable();
 
         // All relaxations below only apply to executable code, so we shouldn't attempt them if a
@@ -263,7 +264,7 @@ impl crate::platform::Arch for ElfRiscV64 {
                                 return Some(Relaxation {
                                     kind: RelaxationKind::Lo12Rs1ToZero,
                                     rel_info: ElfRiscV64::relocation_from_raw(relocation_kind)
-                                        .unwrap(),
+                                        .ok()?,
                                     mandatory: false,
                                 });
                             }
